@@ -628,6 +628,7 @@ static int run_replay(Ctx & cx, const std::string & file)
   printf("REPLAY-PASS\n"); return 0;
 }
 
+#ifndef GENCHECK_NO_MAIN
 int main(int argc, char ** argv)
 {
   Args a(argc, argv);
@@ -650,3 +651,4 @@ int main(int argc, char ** argv)
   fprintf(res, "done evaluations=%llu failures=%zu\n", (unsigned long long)cx.rep.evaluations, cx.rep.failures.size()); fflush(res);
   return rc;
 }
+#endif
